@@ -12,13 +12,13 @@ CHECKS = {
           "Generated logger trees (descendants, skipped levels, textual-prefix siblings, leading '::', additive flags, repeated attachments) with targets derived from each tree are logged through log4rs::Logger; the multiset of deliveries must equal a component-wise reference model, and the same configuration in a permuted declaration order must deliver identically. Held on N generated cases, no absence proof.",
           "Trusts the harness model route() (written from the statement) and harness capture appenders.", "DESIGN.md §2 C01"),
   "C02": ("exploration", PBT + " of reconfiguration histories, one child process per history (global log facade), oracle = routing model + max-level rule",
-          "Histories of 1-8 configurations whose most verbose level is steered up and down (held by root, leaf or deep logger) are installed through the three initialisers and Handle::set_config in a dedicated process; after every step log::max_level(), Logger::max_log_level(), enabled() on a target x level grid and log! macro deliveries are compared with the model.",
+          "Histories of 1-8 configurations whose most verbose level is steered up and down (held by root, leaf or deep logger) are installed through the three initialisers and Handle::set_config in a dedicated process; after every step log::max_level(), Logger::max_log_level(), enabled() on a target x level grid and log! macro deliveries are compared with the model; an appender of the outgoing configuration logs through the macros while set_config tears it down, and that record must reach what the incoming configuration prescribes.",
           "Global log facade without static max-level features; harness model.", "DESIGN.md §2 C02"),
   "C03": ("exploration", PBT + " of filter chains plus exhaustive sweeps (all chains <= 4, threshold truth table) against a per-appender chain model",
           "1-4 appenders with chains of scripted Accept/Neutral/Reject filters and real ThresholdFilters, scripted appender failures, generated record levels; consult log, delivery log and error-handler log must equal the model per appender independently. All 121 chains of length <= 4 x failing/healthy x position and the 6x5 threshold table are enumerated completely.",
           "Filters/appenders are harness implementations observing calls (real ThresholdFilter wrapped).", "DESIGN.md §2 C03"),
   "C04": ("exploration", PBT + " with amplified thread schedules (parking inside the critical section, reader thread), oracle = exact file content / whole-record stream",
-          "Pre-existing content x open mode x pattern or multi-chunk encoder x single-threaded appends checked through a fresh handle after every call x concurrent phases of 2-8 threads in which designated records park between two chunks inside the appender's critical section while a reader samples the file; the file must be exactly pre-existing ++ acknowledged records, whole, per-thread ordered.",
+          "Pre-existing content x open mode x pattern or multi-chunk encoder x single-threaded appends checked through a fresh handle after every call x concurrent phases of 2-8 threads in which designated records park between two chunks inside the appender's critical section while a reader samples the file, optionally after an append that unwound out of the appender (panicking Display argument); the file must be exactly pre-existing ++ acknowledged records, whole, per-thread ordered.",
           "OS scheduler not controlled: interleavings are amplified, not enumerated.", "DESIGN.md §3 C04"),
   "C05": ("exploration", PBT + " of operation histories (append/restart/clock advance/concurrent burst) over triggers x rollers, oracle = suffix-of-acknowledged-stream invariant",
           "Histories over size/on-start-up/time (guarded clock)/user-defined pre- and post-processing triggers and delete/fixed-window rollers (plain, gz, zst, directory patterns), both open modes, optionally a user-defined roller that fails on scripted calls, foreground and background-rotation builds; after every operation every retained file must parse into whole self-delimiting records and archives oldest-to-newest plus the active file must be a gap-free suffix of the acknowledged stream, records disappearing only from a full window.",
@@ -27,14 +27,14 @@ CHECKS = {
           "Limits incl. 0, pre-existing files around the limit, both open modes, restarts, multi-byte payloads, multi-chunk encoder: at every policy consultation len_estimate == on-disk size == model size, rotation iff size > N, archive content == rolled content.",
           "Foreground rotation build.", "DESIGN.md §3 C06"),
   "C07": ("exploration", PBT + " of roller configurations x initial directory states x roll sequences; oracle = full recursive snapshot model",
-          "Bases incl. u32::MAX-count+1, counts 0-6, 14 patterns (index in name/directory/twice, $ENV incl. a value containing '{}', gz/zst), initial windows with gaps/outside-window archives/bystanders, 1-10 rolls, rolled file optionally on another filesystem (copy fallback), foreground and background-rotation builds; exact shift for gap-free windows, charitable ordered-list relation with gaps, nothing outside the managed names touched.",
+          "Bases incl. u32::MAX-count+1, counts 0-6, 14 patterns (index in name/directory/twice, $ENV incl. a value containing '{}', gz/zst), initial windows with gaps/outside-window archives/bystanders, 1-10 rolls of files up to 400 kB incompressible, rolled-file names that are not valid UTF-8, temp-file look-alikes in the background build, rolled file optionally on another filesystem (copy fallback), foreground and background-rotation builds; exact shift for gap-free windows, charitable ordered-list relation with gaps, nothing outside the managed names touched.",
           "Archive names computed by the harness's own $ENV expander.", "DESIGN.md §3 C07"),
   "C08": ("fault_enumeration", PBT + " of histories, each expanded into every (rotation, step) x {injected error, crash image} plus hook-free obstacle directories",
-          "For every generated history the check first learns its rotations, then enumerates each archive shift and the final move/compress of each rotation as the point of failure (guarded step callback returning Err) and as the point of process death (directory image + restart), and places obstacle directories and dangling directory symlinks without hooks, with the active file optionally on another filesystem; after every append and on every image the stream/retention oracles must hold, the failing append must return Err without panicking, and the appender must recover.",
+          "For every generated history the check first learns its rotations, then enumerates each archive shift and the final move/compress of each rotation as the point of failure (guarded step callback returning Err) and as the point of process death (directory image + restart), and places obstacle directories and, for any slot directory of the window (counts up to 6), dangling symlinks or regular files without hooks, with the active file optionally on another filesystem; after every append and on every image the stream/retention oracles must hold, the failing append must return Err without panicking, and the appender must recover.",
           "Hooks H2 (step callback) and H1; crash = directory image between steps (page cache intact), fsync not modelled.", "DESIGN.md §3 C08"),
   "C09": ("exploration", PBT + " of pattern ASTs printed to strings, under both build profiles; oracle = reference renderer computed from the AST; alias metamorphic relation",
-          "Patterns are generated as ASTs over the documented grammar and printed; output for generated records (Unicode, absent fields, MDC, multi-piece messages, short writes, named threads) must equal render(AST, record), styles balanced, alias-flipped pattern identical; sub-second dates are cut out and parsed back into the encode bracket.",
-          "Date formatting reference uses chrono; TZ pinned to a fixed offset.", "DESIGN.md §4 C09"),
+          "Patterns are generated as ASTs over the documented grammar and printed; output for generated records (Unicode, absent fields, MDC, multi-piece messages, short writes, named threads) must equal render(AST, record), styles balanced, alias-flipped pattern identical; sub-second dates are cut out and parsed back into the encode bracket; TZ is moved through fixed-offset zones while the process runs and local dates must follow.",
+          "Date formatting reference uses chrono; TZ pinned to a fixed offset (except part tz-change).", "DESIGN.md §4 C09"),
   "C10": ("exploration", PBT + " of width specs with text lengths chosen around m and M and scripted short writes; oracle = pad(first_M_chars) plus raw-byte assertions",
           "Single-formatter cases assert on the raw bytes valid UTF-8, <= M and >= m characters and equality with the law; nested cases (spec probability 0.9, depth <= 4) compare with the compositional reference.",
           "m <= M (statement's domain).", "DESIGN.md §4 C10"),
@@ -48,22 +48,22 @@ CHECKS = {
           "build() Ok iff no offence; every error names a real offence and every offending item is covered; build_lossy equals the valid part; returned configs are installed and probed under catch_unwind against route().",
           "Colon runs of even length >= 4 are unsettled by the statement (either outcome accepted).", "DESIGN.md §5 C13"),
   "C14": ("exploration", PBT + " of logical configurations rendered by three hand-written emitters, differential against a programmatic twin; mutation-based negative oracle by layer",
-          "Each logical configuration is rendered to YAML, JSON and TOML (generated key order, defaultable keys present/omitted), loaded through both paths, compared through Config accessors and through directory snapshots after probe records with a twin built by the public builders; mutated documents must be rejected at the right layer, lossy loading must keep everything else working, degenerate numerics never panic.",
+          "Each logical configuration is rendered to YAML, JSON and TOML (generated key order, defaultable keys present/omitted), loaded through both paths, compared through Config accessors and through directory snapshots after probe records with a twin built by the public builders (ten clock-free patterns incl. the empty one and line breaks after {n}); mutated documents (unknown keys carry a number, null, empty string, empty list or empty map) must be rejected at the right layer, lossy loading must keep everything else working, degenerate numerics never panic.",
           "Hook H1 pins the clock; console appenders presence only; root level default not asserted.", "DESIGN.md §5 C14"),
   "C15": ("exploration", PBT + " of concurrent swap plans, exhaustive re-entrant swaps at every fan-out position, model-based histories of file edits against the single-stepped reloader",
-          "Tagged capture appenders make every delivery attributable to one configuration generation: no record may mix generations or miss an appender, under volume and under re-entrant set_config from inside append at every position; the real ConfigReloader::run_once is stepped through generated edit histories and compared with a model of the statement, observed behaviourally.",
+          "Tagged capture appenders make every delivery attributable to one configuration generation: no record may mix generations or miss an appender, under volume and under re-entrant set_config from inside append at every position; the real ConfigReloader::run_once is stepped through generated edit histories (valid, garbage, not UTF-8, touched, deleted, older/same mtime, rate changes) and compared with a model of the statement, observed behaviourally.",
           "Hooks H3, H4. Scheduler not controlled; reloader liveness by one bounded real-time smoke case.", "DESIGN.md §5 C15"),
-  "C16": ("exploration", PBT + " of instants constructed around calendar and DST features, one process per time zone; oracle = proleptic-Gregorian reference written without chrono; model of the trigger object under a driven clock",
-          "Schedule function: no panic, strictly in the future, and equal to the wall-clock reference wherever chrono reports a constant offset; trigger object: fires iff now >= scheduled, reschedules into the future; end-to-end: first record at/after the boundary opens the new file.",
+  "C16": ("exploration", PBT + " of instants constructed around calendar and DST features, one process per time zone; oracle = proleptic-Gregorian reference written without chrono; model of the trigger object under a driven clock; real-clock scenarios across a real offset change in child processes",
+          "Schedule function: no panic, strictly in the future, and equal to the wall-clock reference wherever chrono reports a constant offset; trigger object: fires iff now >= scheduled, reschedules into the future; end-to-end: first record at/after the boundary opens the new file; real clock: a POSIX-rule zone switches two seconds into the case and triggers created after / running since before the switch must schedule under the offset in force; multipliers up to i64::MAX never schedule earlier than (n-1) units ahead.",
           "Hooks H1. UTC offsets (precondition only) from chrono; both modulate readings accepted.", "DESIGN.md §6 C16"),
   "C17": ("exploration", PBT + " of start-up situations (sizes around min_size, modes, lifetimes, barrier-released threads); oracle = exact archive/active content",
-          "Rolled iff size at start-up >= min_size, archive == pre-existing content, first record opens the fresh file, no further archive ever appears, also for a simultaneous start of 2-8 threads.",
+          "Rolled iff size at start-up >= min_size, archive == pre-existing content, first record opens the fresh file, no further archive ever appears - also for a simultaneous start of 2-8 threads, after a start-up roll that failed (not made up for later), and over lifetimes of 70 000 records.",
           "Scheduler not controlled (barrier amplification).", "DESIGN.md §3 C17"),
   "C18": ("exploration", "exhaustive 432-cell environment x terminal matrix in child processes on real ptys + exhaustive 243-style sweep + " + PBT + " of style pairs/interleavings; oracle = statement's cascade and an SGR interpreter",
           "Every cell runs in its own child with generated highlight patterns; target/non-target stream content, tty_only silence, presence of escapes per the colour cascade, well-formedness and resets are checked; every style must map any prior terminal state to exactly the requested attributes.",
           "ptys via libc::openpty (absent => exit 2). NO_COLOR=0 / CLICOLOR_FORCE=0 accept both readings.", "DESIGN.md §6 C18"),
   "C19": ("exploration", PBT + " of token-built paths and variable pools; oracle = single-pass reference expander; end-to-end through the three public builders",
-          "Bulk comparison through the guarded hook and creation of exactly the expected file by FileAppender, RollingFileAppender and FixedWindowRoller.",
+          "Bulk comparison through the guarded hook and creation of exactly the expected file by FileAppender, RollingFileAppender (both open modes; truncate mode must empty the file at the expanded location) and FixedWindowRoller.",
           "Hook H5. Values are '$'-free.", "DESIGN.md §6 C19"),
   "C20": ("exploration", PBT + " of literals (boundary-centred numbers x decorations x units x whitespace x seven carriers); oracle = u128 reference with accept-either classes",
           "Exact value, mandatory rejection, or error-or-exact where the statement is silent; never a panic, never a wrapped value.",
